@@ -447,6 +447,7 @@ class Player:
         """
         if tol is None:
             tol = self.tol
+        tol = float(tol)  # Compare in double precision, whatever tol's type
 
         payoff_array = self.payoff_array
 
@@ -775,6 +776,7 @@ class NormalFormGame:
          [[3, 1]]]
 
         """
+        player_idx = int(player_idx)  # `player_idx-i` wraps for unsigned ints
         # Allow negative indexing
         if -self.N <= player_idx < 0:
             player_idx = player_idx + self.N
